@@ -396,57 +396,57 @@ theorem C11_impl_result (σ : Sym) (s s' : GameState) (pp pp' : PlayPhase)
 section Examples
 
 -- the three images of the board: a7 ↦ h7 / a2 / h2, with the colour kept / exchanged / exchanged
-example : Sym.mirror.board exBoard 15 = some ⟨true, .rabbit⟩ ∧ Sym.mirror.board exBoard 8 = none ∧
-    Sym.swap.board exBoard 48 = some ⟨false, .rabbit⟩ ∧ Sym.swap.board exBoard 8 = none ∧
-    Sym.both.board exBoard 55 = some ⟨false, .rabbit⟩ ∧ Sym.both.board exBoard 8 = some ⟨true, .rabbit⟩ := by
+example : Sym.mirror.board exBoardSym 15 = some ⟨true, .rabbit⟩ ∧ Sym.mirror.board exBoardSym 8 = none ∧
+    Sym.swap.board exBoardSym 48 = some ⟨false, .rabbit⟩ ∧ Sym.swap.board exBoardSym 8 = none ∧
+    Sym.both.board exBoardSym 55 = some ⟨false, .rabbit⟩ ∧ Sym.both.board exBoardSym 8 = some ⟨true, .rabbit⟩ := by
   decide
 
 -- frozen: the silver rabbit c5 and its images f5, c4 (now gold), f4 (now gold)
-example : frozen exBoard 26 = true ∧ frozen (Sym.mirror.board exBoard) 29 = true ∧
-    frozen (Sym.swap.board exBoard) 34 = true ∧ frozen (Sym.both.board exBoard) 37 = true ∧
-    frozen exBoard 27 = false ∧ frozen (Sym.both.board exBoard) 36 = false := by decide
+example : frozen exBoardSym 26 = true ∧ frozen (Sym.mirror.board exBoardSym) 29 = true ∧
+    frozen (Sym.swap.board exBoardSym) 34 = true ∧ frozen (Sym.both.board exBoardSym) 37 = true ∧
+    frozen exBoardSym 27 = false ∧ frozen (Sym.both.board exBoardSym) 36 = false := by decide
 
 -- offered: the gold rabbit a7 may step north, not south; its swapped image, a silver rabbit on
 -- a2, may step south, not north; the mirrored one on h7 north, not south
-example : enabledMove exBoard true 0 .none 8 .n = true ∧ enabledMove exBoard true 0 .none 8 .s = false ∧
-    enabledMove (Sym.swap.board exBoard) false 0 .none 48 .s = true ∧
-    enabledMove (Sym.swap.board exBoard) false 0 .none 48 .n = false ∧
-    enabledMove (Sym.mirror.board exBoard) true 0 .none 15 .n = true ∧
-    enabledMove (Sym.mirror.board exBoard) true 0 .none 15 .s = false := by decide
+example : enabledMove exBoardSym true 0 .none 8 .n = true ∧ enabledMove exBoardSym true 0 .none 8 .s = false ∧
+    enabledMove (Sym.swap.board exBoardSym) false 0 .none 48 .s = true ∧
+    enabledMove (Sym.swap.board exBoardSym) false 0 .none 48 .n = false ∧
+    enabledMove (Sym.mirror.board exBoardSym) true 0 .none 15 .n = true ∧
+    enabledMove (Sym.mirror.board exBoardSym) true 0 .none 15 .s = false := by decide
 
 -- offered: the elephant d5 may push the rabbit c5 west (to b5); in the half-turned position the
 -- silver elephant e4 may push the gold rabbit f4 east (to g4); the obligations correspond
-example : pushStart exBoard true 0 26 .w = true ∧
-    pushStart (Sym.both.board exBoard) false 0 37 .e = true ∧
-    nextPending exBoard true .none 26 .w = .push 26 .rabbit ∧
-    nextPending (Sym.both.board exBoard) false .none 37 .e = .push 37 .rabbit ∧
-    pushEnd (applyStep exBoard 26 .w) true (.push 26 .rabbit) 27 .w = true ∧
-    pushEnd (applyStep (Sym.both.board exBoard) 37 .e) false (.push 37 .rabbit) 36 .e = true := by decide
+example : pushStart exBoardSym true 0 26 .w = true ∧
+    pushStart (Sym.both.board exBoardSym) false 0 37 .e = true ∧
+    nextPending exBoardSym true .none 26 .w = .push 26 .rabbit ∧
+    nextPending (Sym.both.board exBoardSym) false .none 37 .e = .push 37 .rabbit ∧
+    pushEnd (applyStep exBoardSym 26 .w) true (.push 26 .rabbit) 27 .w = true ∧
+    pushEnd (applyStep (Sym.both.board exBoardSym) 37 .e) false (.push 37 .rabbit) 36 .e = true := by decide
 
 -- captures: when the cat c2 steps west the horse on c3 is captured; mirrored: cat f2 steps east
 -- and the horse on f3 is captured; swapped: silver cat c7 steps west, silver horse on c6 captured
-example : exBoard 42 = some ⟨true, .horse⟩ ∧ applyStep exBoard 50 .w 42 = none ∧
-    Sym.mirror.board exBoard 45 = some ⟨true, .horse⟩ ∧ applyStep (Sym.mirror.board exBoard) 53 .e 45 = none ∧
-    Sym.swap.board exBoard 18 = some ⟨false, .horse⟩ ∧ applyStep (Sym.swap.board exBoard) 10 .w 18 = none := by
+example : exBoardSym 42 = some ⟨true, .horse⟩ ∧ applyStep exBoardSym 50 .w 42 = none ∧
+    Sym.mirror.board exBoardSym 45 = some ⟨true, .horse⟩ ∧ applyStep (Sym.mirror.board exBoardSym) 53 .e 45 = none ∧
+    Sym.swap.board exBoardSym 18 = some ⟨false, .horse⟩ ∧ applyStep (Sym.swap.board exBoardSym) 10 .w 18 = none := by
   decide
 
 -- results: after the rabbit reaches a8 Gold has won; in the swapped game Silver has won
-example : result (applyStep exBoard 8 .n) false = some .goldWin ∧
-    result (applyStep (Sym.mirror.board exBoard) 15 .n) false = some .goldWin ∧
-    result (applyStep (Sym.swap.board exBoard) 48 .s) true = some .silverWin ∧
-    result (applyStep (Sym.both.board exBoard) 55 .s) true = some .silverWin ∧
-    result exBoard true = none ∧ result (Sym.swap.board exBoard) false = none := by decide
+example : result (applyStep exBoardSym 8 .n) false = some .goldWin ∧
+    result (applyStep (Sym.mirror.board exBoardSym) 15 .n) false = some .goldWin ∧
+    result (applyStep (Sym.swap.board exBoardSym) 48 .s) true = some .silverWin ∧
+    result (applyStep (Sym.both.board exBoardSym) 55 .s) true = some .silverWin ∧
+    result exBoardSym true = none ∧ result (Sym.swap.board exBoardSym) false = none := by decide
 
 -- the hypothesis of `C11_spec_game_everywhere` is satisfiable: the game can be played, and so
 -- can its three images
-example : (State.run ⟨exBoard, true, 0, .none⟩ exGame).isSome = true ∧
-    (State.run (Sym.mirror.state ⟨exBoard, true, 0, .none⟩) (exGame.map Sym.mirror.act)).isSome = true ∧
-    (State.run (Sym.swap.state ⟨exBoard, true, 0, .none⟩) (exGame.map Sym.swap.act)).isSome = true ∧
-    (State.run (Sym.both.state ⟨exBoard, true, 0, .none⟩) (exGame.map Sym.both.act)).isSome = true := by
+example : (State.run ⟨exBoardSym, true, 0, .none⟩ exGame).isSome = true ∧
+    (State.run (Sym.mirror.state ⟨exBoardSym, true, 0, .none⟩) (exGame.map Sym.mirror.act)).isSome = true ∧
+    (State.run (Sym.swap.state ⟨exBoardSym, true, 0, .none⟩) (exGame.map Sym.swap.act)).isSome = true ∧
+    (State.run (Sym.both.state ⟨exBoardSym, true, 0, .none⟩) (exGame.map Sym.both.act)).isSome = true := by
   decide
 
 -- ... and not every list can be played (the machine is not trivially permissive)
-example : State.run ⟨exBoard, true, 0, .none⟩ [.move 26 .w, .pass] = none := by decide
+example : State.run ⟨exBoardSym, true, 0, .none⟩ [.move 26 .w, .pass] = none := by decide
 
 -- the hypotheses `PlayInv`, `PlayInv`, `SymRel` of the transfer theorems are satisfiable, for each
 -- of the three symmetries (`exModel_rel`), and so is `PlayableNoRep` of `C11_impl_game`
